@@ -17,7 +17,7 @@ class CoreProp(PropBase):
     feat: dict = {}
     checks: list = []
     scheds = ["eager", "rr"]
-    phase_kinds = ["random", "random", "allon", "stall", "flap", "sweep"]
+    phase_kinds = ["random", "random", "allon", "stall", "hold0", "hold0", "flap", "sweep"]
     real = ["transactron.core (TModule, Transaction, Method, def_method, TransactionManager, both schedulers)",
             "transactron.lib.simultaneous.condition", "amaranth elaboration + pysim"]
     stubs = ["generated program (built through the public API)", "cycle driver", "semantic oracle over observed signals"]
@@ -29,7 +29,12 @@ class CoreProp(PropBase):
     cycles = (60, 160)
 
     def features_for(self, rng, tier):
-        return dict(self.feat)
+        f = dict(self.feat)
+        if tier == "thorough":  # larger programs: more transactions, methods and call sites
+            f.setdefault("max_trans", 6)
+            f.setdefault("max_meth", 7)
+            f.setdefault("max_sites", 30)
+        return f
 
     def gen_config(self, rng, tier, idx):
         # the program comes from a sub-seed shared by two neighbouring run indices, so that the same
@@ -43,7 +48,7 @@ class CoreProp(PropBase):
             sched = "eager"  # C09's premise does not hold for this program: use the default arbiter
         cycles = rng.randint(*self.cycles) * (2 if tier == "thorough" else 1)
         return {"prog": prog, "sched": sched, "cycles": cycles, "checks": list(self.checks),
-                "plan": make_plan(rng, cycles, self.phase_kinds, 8, 40)}
+                "plan": make_plan(rng, cycles, self.phase_kinds, 6, 24)}
 
     def make(self, cfg):
         return CoreScenario(cfg)
